@@ -172,8 +172,9 @@ fn roundtrip(machine: ZXMachine, fresh_receiver: bool, paged: u8) {
         e.verif_cpu().set_im(dim);
         e.verif_ctl().set_border_color(0, any_color());
         if !is48 {
-            let l2: u8 = kani::any();
-            e.verif_ctl().write_7ffd(l2); // may lock paging
+            // a different bank / screen / ROM, possibly locking paging (bank bits concrete, see above)
+            let l2: u8 = (kani::any::<u8>() & 0xF8) | ((paged + 3) & 7);
+            e.verif_ctl().write_7ffd(l2);
         }
         let mut k = 0u8;
         while k < pages {
